@@ -1519,6 +1519,24 @@ def f():
     except RuntimeError as ex2:
         out.append((str(ex2), type(ex2.__cause__).__name__))
     return out
+---
+class _W:
+    __slots__ = ('a', 'b')
+    def __init__(self, a, /, b=2, *, c=0):
+        self.a, self.b = a + c, b
+    def mix(self, x, /, *rest, k=1):
+        return self.a * x + self.b * k + sum(rest)
+    @staticmethod
+    def twice(v, /):
+        return 2 * v
+    @classmethod
+    def of(cls, v, /, *, c=1):
+        return cls(v, c=c)
+def g(a, /, b, *, c=3):
+    return a, b, c
+def f():
+    w = _W(1, b=5, c=2)
+    return w.mix(2), w.mix(2, 10, 20, k=3), _W.twice(4), w.twice(5), _W.of(7).a, _W.of(7, c=4).a, g(1, 2), g(1, b=2, c=9), (lambda x, /, y=1: x + y)(3)
 '''
 
 
